@@ -115,7 +115,11 @@ class BinarySensor(Device):
 
     def _reset_state(self) -> None:
         """Reset to 'off' after `reset_after` - also the remote value, so that a following 'on' is a change again."""
-        self.remote_value.update_value(False)
+        self.remote_value.value = False
+        # not a telegram - the counter of `context_timeout` is not involved
+        if self.state:
+            self.state = False
+            self.after_update()
 
     async def _counter_task(self, wait_seconds: float) -> None:
         """Trigger when context window has passed once with counter values and once reset."""
